@@ -135,7 +135,8 @@ class ClientSubSpec(Spec):
             "distinct (subscribed, paused) client states visited")
     expected_probes = ("op_subscribe", "op_pause", "op_resume", "op_sub_ctx", "op_pause_ctx", "refused_ops",
                        "ctx_overlaps_subscribed", "ctx_overlaps_paused", "op_while_sub_all", "op_reconnect",
-                       "reconnect_after_loss", "twin_instance", "racing_probes_checked", "racing_probe_overtook_request")
+                       "reconnect_after_loss", "twin_instance", "racing_probes_checked", "racing_probe_overtook_request",
+                       "concurrent_client_ops")
     components = {"real": REAL_MANAGER + REAL_CLIENT, "stub": STUB_NET}
     assumptions = ["model-free: client and manager are compared with each other, the statement's own criterion",
                    "all connections writable during probes (a drop would be a legitimate non-delivery)"]
